@@ -586,7 +586,13 @@ func finish(cfg *Config, spec *PropSpec, out *runOutcome, wall time.Duration) in
 		funcs = append(funcs, f)
 	}
 	sort.Strings(funcs)
-	assumptions := append([]string(nil), spec.Assumptions...)
+	assumptions := []string{
+		"the symgo interpreter implements the dynamic semantics of go/ssa (fork of the x/tools reference interpreter; validated per run by replaying passing-path models natively)",
+		"math/big: concrete values use the real library; symbolic values are exact rationals n/2^s, rounding is modelled only where provably exact or provably inexact",
+		"fmt/errors text is opaque (used for messages only); sync primitives have sequential semantics; x/text normalisation and textseg run natively on concrete strings and are the identity on ASCII symbolic strings",
+		"Go integers are SMT Ints with exact wrap-around; strings with symbolic bytes have a concrete length",
+	}
+	assumptions = append(assumptions, spec.Assumptions...)
 	for a := range out.assume {
 		assumptions = append(assumptions, a)
 	}
